@@ -6,6 +6,7 @@
 //   readback.*  -- the reference does not read back the value written
 //   stored.*    -- bits inside the target's own range are wrong
 //   clobber.*   -- bits outside the target's own range changed
+// (PART 15, 16, 17 continue PART 1, 2, 9 -- split for compile time)
 // PART 0-2: packed_channel_reference<BF,First,Num> over u8/u16 fields -- every First; 16-bit fields: all 2^16 contents
 // PART 3,4: the same over u32/u64 fields (first bits around every byte boundary)
 // PART 5  : packed_dynamic_channel_reference<BF,Num> at first bit 0..7
@@ -27,6 +28,7 @@ namespace gil = boost::gil;
 namespace mp11 = boost::mp11;
 using c08::byte;
 using c08::arena;
+using c08::tight_block;
 using c08::get_bits;
 using c08::put_bits;
 using c08::low_mask;
@@ -67,6 +69,7 @@ struct chan_ops {
     uint64_t (*swap_vr)(uint64_t, byte*, unsigned);
     uint64_t (*swap_rv)(byte*, unsigned, uint64_t);
     void (*arith)(int, byte*, unsigned, int);
+    int (*read_variants)(const byte*, unsigned, uint64_t);      // every way of reading through the const reference; bit mask of the ways that disagree
 };
 
 template <class R, bool Dyn> struct mk { template <class P> static R at(P* p, unsigned) { return R(p); } };
@@ -98,12 +101,29 @@ template <class R, class CR, class X, bool Dyn> struct chan_impl {
             default: r /= k; break;
         }
     }
+    template <class C> static bool convert_agrees(C const& r, uint64_t expect, std::true_type) {
+        return gil::channel_convert<uint16_t>(r) == gil::channel_convert<uint16_t>(V((I)expect)) && gil::channel_convert<gil::float32_t>(r) == gil::channel_convert<gil::float32_t>(V((I)expect));
+    }
+    template <class C> static bool convert_agrees(C const&, uint64_t, std::false_type) { return true; }
+    static int read_variants(const byte* p, unsigned fb, uint64_t expect) {
+        int bad = 0;
+        CR r = mk<CR, Dyn>::at(p, fb);
+        if ((uint64_t)r.get() != expect) bad |= 1;
+        I conv = r; if ((uint64_t)conv != expect) bad |= 2;
+        CR r2(r); if ((uint64_t)r2.get() != expect) bad |= 4;
+        if (!convert_agrees(r, expect, std::integral_constant<bool, (R::num_bits <= 16)>())) bad |= 8;
+        if ((uint64_t)(I)gil::channel_invert(r) != (low_mask(R::num_bits) - expect)) bad |= 16;
+        V v(r); if ((uint64_t)(I)v != expect) bad |= 32;
+        if (!(r == r2) || (r != r2) || !(r == v)) bad |= 64;
+        if ((uint64_t)(I)gil::channel_multiply(r, r2) != (uint64_t)(I)gil::channel_multiply(v, v)) bad |= 128;
+        return bad;
+    }
     static chan_ops make(const std::string& name, const std::string& cls, int bf_bytes, int num, int first, int x_first, int x_bf_bytes) {
         chan_ops o;
         o.name = name; o.cls = cls; o.bf_bytes = bf_bytes; o.num = num; o.first = first;
         o.set = &set; o.get_c = &get_c; o.get_m = &get_m; o.assign_mm = &assign_mm; o.assign_mc = &assign_mc; o.assign_x = &assign_x;
         o.x_first = x_first; o.x_bf_bytes = x_bf_bytes;
-        o.swap_rr = &swap_rr; o.swap_vr = &swap_vr; o.swap_rv = &swap_rv; o.arith = &arith;
+        o.swap_rr = &swap_rr; o.swap_vr = &swap_vr; o.swap_rv = &swap_rv; o.arith = &arith; o.read_variants = &read_variants;
         return o;
     }
 };
@@ -120,6 +140,10 @@ template <class BF, int Num> static chan_ops dynamic_ops() {
     typedef gil::packed_channel_reference<uint64_t, 3, Num, false> X;
     return chan_impl<R, CR, X, true>::make(vh::cat("pdyn<", bfname<BF>::s(), ",", Num, ">"), vh::cat("pdyn.", bfname<BF>::s(), ".n", Num), (int)sizeof(BF), Num, -1, 3, 8);
 }
+
+static void channel_case(const chan_ops& o);
+static void channel_tight_case(const chan_ops& o);
+template <class BF, int Num> static void dyn_cases() { channel_case(dynamic_ops<BF, Num>()); channel_tight_case(dynamic_ops<BF, Num>()); }
 
 // values of an n-bit channel: all for n <= 8, otherwise ends, single bits and their complements, seeded
 static std::vector<uint64_t> channel_values(int n, vh::rng& r, int nrand) {
@@ -284,16 +308,68 @@ static void channel_case(const chan_ops& o) {
     vh::evals(evals); vh::distinct(evals);
 }
 
+// The same reference built on the last bytes of a block of exactly the bytes that hold the channel (dynamic reference:
+// ceil((first bit + Num)/8) bytes; static reference: its bit field), flush against inaccessible memory: reads through the
+// const flavour (every access path), reads and writes through the mutable one.  An access behind the block ends the
+// process (ASan report / SIGSEGV) and is keyed by the driver with the case class "tight-chan".
+static void channel_tight_case(const chan_ops& o) {
+    if (!vh::begin_case("tight-chan", o.name)) return;
+    vh::rng r = vh::case_rng();
+    uint64_t evals = 0;
+    const uint64_t M = low_mask(o.num);
+    for (unsigned fb = 0; fb < 8; ++fb) {
+        unsigned f = o.first >= 0 ? (unsigned)o.first : fb;
+        if (o.first >= 0 && fb > 0) break;
+        if ((int)f + o.num > 8 * o.bf_bytes) continue;
+        const size_t need = o.first >= 0 ? (size_t)o.bf_bytes : (size_t)((f + o.num + 7) / 8);
+        const std::string at = vh::cat(o.name, " first bit ", f, " on the last ", need, " byte(s) of a block");
+        for (size_t lead = 0; lead < 3; ++lead) {
+            tight_block A(lead + need), B(lead + need);
+            for (int round = 0; round < (kSanitized ? 6 : 16); ++round) {
+                A.fill(r); B.fill(r);
+                byte* pa = A.p + lead; byte* pb = B.p + lead;
+                const uint64_t va = get_bits(pa, f, o.num), vb = get_bits(pb, f, o.num);
+                const int bad = o.read_variants(pa, f, va);
+                if (bad) vh::viol(vh::cat("read.tight.", o.cls), vh::cat(at, ": bits hold ", va, ", reading through the const reference disagrees on access paths (bit mask) ", bad));
+                if (o.get_m(pa, f) != va) vh::viol(vh::cat("read.tight.", o.cls), vh::cat(at, ": bits hold ", va, ", mutable reference reads ", o.get_m(pa, f)));
+                // ref = const ref / ref = ref / swap between two tight blocks, then plain writes and a wrap-around step
+                std::vector<byte> ea(A.p, A.p + A.n), eb(B.p, B.p + B.n);
+                put_bits(ea.data() + lead, f, o.num, vb);
+                o.assign_mc(pa, f, pb, f);
+                if (std::memcmp(A.p, ea.data(), A.n) || std::memcmp(B.p, eb.data(), B.n)) vh::viol(vh::cat("stored.tight-assign-cref.", o.cls), vh::cat(at, " = const reference holding ", vb, ": block differs from the expected image"));
+                put_bits(ea.data() + lead, f, o.num, va); put_bits(A.p + lead, f, o.num, va);
+                put_bits(eb.data() + lead, f, o.num, va);
+                o.assign_mm(pb, f, pa, f);
+                if (std::memcmp(A.p, ea.data(), A.n) || std::memcmp(B.p, eb.data(), B.n)) vh::viol(vh::cat("stored.tight-assign-ref.", o.cls), vh::cat(at, ": assignment from the reference holding ", va, ": block differs from the expected image"));
+                put_bits(B.p + lead, f, o.num, vb); put_bits(eb.data() + lead, f, o.num, va); put_bits(ea.data() + lead, f, o.num, vb);
+                o.swap_rr(pa, f, pb, f);
+                if (std::memcmp(A.p, ea.data(), A.n) || std::memcmp(B.p, eb.data(), B.n)) vh::viol(vh::cat("stored.tight-swap.", o.cls), vh::cat(at, ": swap of references holding ", va, " and ", vb, ": blocks differ from the expected image"));
+                const uint64_t v = r.next() & M;
+                put_bits(ea.data() + lead, f, o.num, v);
+                o.set(pa, f, v);
+                if (std::memcmp(A.p, ea.data(), A.n) || o.get_c(pa, f) != v) vh::viol(vh::cat("stored.tight-assign.", o.cls), vh::cat(at, " = ", v, ": block differs from the expected image or reads back ", o.get_c(pa, f)));
+                put_bits(A.p + lead, f, o.num, M); put_bits(ea.data() + lead, f, o.num, 0);
+                o.arith(0, pa, f, 1);
+                if (std::memcmp(A.p, ea.data(), A.n)) vh::viol(vh::cat("stored.tight-pre-inc.", o.cls), vh::cat(at, " holding max, ++: block differs from the expected image"));
+                evals += 8;
+            }
+        }
+    }
+    vh::evals(evals); vh::distinct(evals);
+    vh::obs("chan.tight");
+}
+
 // (First,Num) lists
 template <class BF, int Num, int First> struct static_firsts {
     static void run() {
         static_firsts<BF, Num, First - 1>::run();
         channel_case(static_ops<BF, First, Num>());
+        channel_tight_case(static_ops<BF, First, Num>());
     }
 };
 template <class BF, int Num> struct static_firsts<BF, Num, -1> { static void run() {} };
 template <class BF, int Num> static void all_firsts() { static_firsts<BF, Num, (int)sizeof(BF) * 8 - Num>::run(); }
-template <class BF, int Num, int... Firsts> static void some_firsts() { using sw = int[]; (void)sw{0, (channel_case(static_ops<BF, Firsts, Num>()), 0)...}; }
+template <class BF, int Num, int... Firsts> static void some_firsts() { using sw = int[]; (void)sw{0, (channel_case(static_ops<BF, Firsts, Num>()), channel_tight_case(static_ops<BF, Firsts, Num>()), 0)...}; }
 
 // =====================================================================================================
 // Pixels, type-erased: bit_aligned_pixel_reference and packed_pixel
@@ -602,6 +678,13 @@ struct it_ops {
     int nch; int width[5];
     void (*set_at)(byte* p, int bit, long i, int k, uint64_t v);                       // at_c<k>(it[i]) = v
     uint64_t (*get_at)(const byte* p, int bit, long i, int k);                         // at_c<k>(const_it[i])
+    // const flavour: every way of reading pixel i of a row through const_iterator / const_reference; fills vals[k] and the
+    // pixel bits, returns a bit mask of access paths that disagree with one another
+    int (*cread_pixel)(const byte* p, int bit, long i, uint64_t* vals, uint64_t* pixbits);
+    // walks the row through the const iterator (++, --, +=, [], *), copies it into a mutable row; returns the sum of pixel bits per pass in sums[0..4]
+    void (*cread_row)(const byte* p, int bit, long npix, byte* dst, int dbit, uint64_t* sums);
+    // const view over w x h pixels packed without row padding from bit 0 of p: sums of pixel bits per access path in sums[0..5]
+    void (*cread_view)(byte* p, long w, long h, byte* dst, uint64_t* sums);
 };
 
 template <class It> static long bitpos(const It& it, const byte* a0) { return (long)(it.bit_range().current_byte() - a0) * 8 + it.bit_range().bit_offset(); }
@@ -668,6 +751,69 @@ template <class BF, class Sizes, class Layout> struct it_impl {
     template <int K> static typename std::enable_if<(K < 0)>::type touch_ch(Ref const&, uint64_t&) {}
     static void set_at(byte* p, int bit, long i, int k, uint64_t v) { It it(p, bit); Ref r = it[i]; ch_dispatch<Ref, CRef, N - 1>::set(k, r, v); }
     static uint64_t get_at(const byte* p, int bit, long i, int k) { CIt it(p, bit); CRef r = it[i]; return ch_dispatch<Ref, CRef, N - 1>::get(k, r); }
+    struct ch_sum { uint64_t* acc; template <class C> void operator()(C const& c) const { *acc += (uint64_t)(typename C::integer_t)c; } };
+    struct px_sum { uint64_t* acc; template <class P> void operator()(P const& px) const { Value v(px); *acc += (uint64_t)v._bitfield; } };
+    template <int K> static typename std::enable_if<(K >= 0)>::type cread_ch(CRef const& r, uint64_t* vals, uint64_t& semsum, int& bad) {
+        typedef typename gil::kth_element_type<CRef, K>::type ch_t;            // const packed_dynamic_channel_reference<BF,W,false>
+        typedef typename ch_t::integer_t I;
+        typedef typename gil::channel_traits<ch_t>::value_type V;
+        const int W = mp11::mp_at_c<Sizes, K>::value;
+        ch_t c = gil::at_c<K>(r);
+        const uint64_t v = (uint64_t)c.get();
+        vals[K] = v;
+        I conv = c; if ((uint64_t)conv != v) bad |= 1;
+        if ((uint64_t)(I)gil::channel_invert(c) != (low_mask(W) - v)) bad |= 2;
+        if (gil::channel_convert<uint16_t>(c) != gil::channel_convert<uint16_t>(V((I)v))) bad |= 4;
+        if ((uint64_t)(I)gil::channel_multiply(c, c) != (uint64_t)(I)gil::channel_multiply(V((I)v), V((I)v))) bad |= 8;
+        semsum += (uint64_t)gil::semantic_at_c<K>(r).get();
+        cread_ch<K - 1>(r, vals, semsum, bad);
+    }
+    template <int K> static typename std::enable_if<(K < 0)>::type cread_ch(CRef const&, uint64_t*, uint64_t&, int&) {}
+    static int cread_pixel(const byte* p, int bit, long i, uint64_t* vals, uint64_t* pixbits) {
+        int bad = 0;
+        CIt it(p, bit);
+        CRef r = it[i];
+        uint64_t semsum = 0, sum = 0, fsum = 0;
+        cread_ch<N - 1>(r, vals, semsum, bad);
+        for (int k = 0; k < N; ++k) sum += vals[k];
+        if (semsum != sum) bad |= 16;                                   // semantic_at_c reads a permutation of the channels
+        gil::static_for_each(r, ch_sum{&fsum}); if (fsum != sum) bad |= 32;
+        Value v(r); *pixbits = (uint64_t)v._bitfield;                   // static_copy from the const reference
+        Value v2; v2 = *(it + i); if (v2._bitfield != v._bitfield) bad |= 64;
+        if (!(r == v) || (r != v2) || !(v == r)) bad |= 128;            // static_equal through the const reference
+        CRef r2 = *(it + i); if (!(r == r2)) bad |= 256;
+        Ref m(const_cast<byte*>(p), bit); (void)m;
+        return bad;
+    }
+    static void cread_row(const byte* p, int bit, long npix, byte* dst, int dbit, uint64_t* sums) {
+        CIt b(p, bit), e = b + npix;
+        for (int k = 0; k < 5; ++k) sums[k] = 0;
+        for (CIt q = b; q != e; ++q) { Value v(*q); sums[0] += (uint64_t)v._bitfield; }
+        for (CIt q = e; q != b;) { --q; Value v = *q; sums[1] += (uint64_t)v._bitfield; }
+        for (CIt q = b; q < e; q += 1) { Value v(q[0]); sums[2] += (uint64_t)v._bitfield; }
+        std::for_each(b, e, px_sum{&sums[3]});
+        It d(dst, dbit);
+        std::copy(b, e, d);                                             // mutable reference = const reference, pixel by pixel
+        for (long i = 0; i < npix; ++i) { Ref dr = d[i]; dr = b[i]; }
+        sums[4] = std::equal(b, e, CIt(It(dst, dbit))) ? 1 : 0;
+    }
+    static void cread_view(byte* p, long w, long h, byte* dst, uint64_t* sums) {
+        typedef gil::type_from_x_iterator<It> TF;
+        typedef typename TF::view_t View;
+        typedef typename View::const_t CView;
+        View mv(w, h, typename TF::xy_locator_t(It(p, 0), w * BS));
+        View dv(w, h, typename TF::xy_locator_t(It(dst, 0), w * BS));
+        CView cv(mv);
+        for (int k = 0; k < 6; ++k) sums[k] = 0;
+        for (long y = 0; y < h; ++y) for (long x = 0; x < w; ++x) { Value v(cv(x, y)); sums[0] += (uint64_t)v._bitfield; }
+        for (typename CView::iterator q = cv.begin(); q != cv.end(); ++q) { Value v(*q); sums[1] += (uint64_t)v._bitfield; }
+        for (long y = 0; y < h; ++y) { typename CView::x_iterator xi = cv.row_begin(y); for (long x = 0; x < w; ++x) { Value v(xi[x]); sums[2] += (uint64_t)v._bitfield; } }
+        for (long x = 0; x < w; ++x) { typename CView::y_iterator yi = cv.col_begin(x); for (long y = 0; y < h; ++y, ++yi) { Value v(*yi); sums[3] += (uint64_t)v._bitfield; } }
+        gil::for_each_pixel(cv, px_sum{&sums[4]});
+        { typename CView::xy_locator loc = cv.xy_at(w - 1, h - 1); Value v(*loc); Value v0(loc(-(w - 1), -(h - 1))); (void)v0; (void)v; }
+        gil::copy_pixels(cv, dv);
+        sums[5] = gil::equal_pixels(cv, typename View::const_t(dv)) ? 1 : 0;
+    }
     static void touch_all(byte* p, int bit, long npix, uint64_t seed) {
         It it(p, bit);
         uint64_t acc = seed;
@@ -685,6 +831,7 @@ template <class BF, class Sizes, class Layout> static it_ops make_it_ops(const s
     it_ops o; o.name = name; o.bit_size = I::BS; o.arith = &I::arith; o.fill = &I::fill; o.copy = &I::copy; o.copy_c = &I::copy_c; o.touch_all = &I::touch_all;
     o.nch = I::N; size_filler f{o.width, 0}; mp11::mp_for_each<Sizes>(f);
     o.set_at = &I::set_at; o.get_at = &I::get_at;
+    o.cread_pixel = &I::cread_pixel; o.cread_row = &I::cread_row; o.cread_view = &I::cread_view;
     return o;
 }
 
@@ -745,21 +892,89 @@ static void iterator_cases(const it_ops& o) {
         vh::evals(evals); vh::distinct(evals);
         vh::obs("iter.copy");
     }
-    // 3. rows flush against both ends of a heap block of exactly the needed size: under ASan any access to a byte that
-    //    holds no bit of the row is a report (the driver keys it by the GIL frame); natively this only exercises the code
+    // 3. rows in a block of exactly the needed size, flush against inaccessible memory (ASan: exact heap allocation;
+    //    native: PROT_NONE page behind the block): any access to a byte that holds no bit of the row ends the process and
+    //    is keyed by the driver (report kind + GIL frame + case class).  Mutable flavour.
     for (int bit = 0; bit < 8; ++bit) {
         if (!vh::begin_case("tight", vh::cat(o.name, "@bit", bit))) continue;
         uint64_t evals = 0;
         for (long npix = 1; npix <= (vh::thorough() ? 24 : 9); ++npix) {
             // the row starts at `bit` of the first byte and ends inside the last byte of the block
-            const size_t bytes = (size_t)((bit + npix * o.bit_size + 7) / 8);
-            std::unique_ptr<byte[]> blk(new byte[bytes]);
-            std::memset(blk.get(), 0x5A, bytes);
-            o.touch_all(blk.get(), bit, npix, vh::seed() + (uint64_t)npix);
+            tight_block blk((size_t)((bit + npix * o.bit_size + 7) / 8));
+            std::memset(blk.p, 0x5A, blk.n);
+            o.touch_all(blk.p, bit, npix, vh::seed() + (uint64_t)npix);
             ++evals;
         }
         vh::evals(evals); vh::distinct(evals);
         vh::obs("iter.tight");
+    }
+    // 4. the same rows read through the const flavour only: const_iterator, const_reference, its channel proxies
+    //    (packed_dynamic_channel_reference<..., false>), conversions of those, static_for_each / static_equal, copy into a
+    //    mutable row.  Values are compared with the bit-loop oracle; the last pixel of every row ends in the last byte of
+    //    the block, for row lengths 1..9 (24) and every start bit, so every channel that ends on a byte boundary is met there.
+    for (int bit = 0; bit < 8; ++bit) {
+        if (!vh::begin_case("tight-const", vh::cat(o.name, "@bit", bit))) continue;
+        vh::rng r = vh::case_rng();
+        uint64_t evals = 0;
+        for (long npix = 1; npix <= (vh::thorough() ? 24 : 9); ++npix) {
+            tight_block src((size_t)((bit + npix * o.bit_size + 7) / 8));
+            const int dbit = (int)r.below(8);
+            tight_block dst((size_t)((dbit + npix * o.bit_size + 7) / 8));
+            for (int round = 0; round < 2; ++round) {
+                src.fill(r); dst.fill(r);
+                uint64_t want_sum = 0;
+                for (long i = npix - 1; i >= 0; --i) {            // last pixel first
+                    uint64_t vals[5] = {0, 0, 0, 0, 0}, pixbits = 0;
+                    const int bad = o.cread_pixel(src.p, bit, i, vals, &pixbits);
+                    const long pb = bit + i * o.bit_size;
+                    const uint64_t want = get_bits(src.p, pb, o.bit_size);
+                    want_sum += want;
+                    if (bad) vh::viol(vh::cat("read.const-paths.", o.name), vh::cat(o.name, " row at bit ", bit, " of ", npix, " pixels, pixel ", i, ": access paths through the const reference disagree (bit mask) ", bad));
+                    if (pixbits != want) vh::viol(vh::cat("read.const-pixel.", o.name), vh::cat(o.name, " row at bit ", bit, " of ", npix, " pixels, pixel ", i, ": bits hold ", want, " value built from the const reference holds ", pixbits));
+                    int ks = 0;
+                    for (int k = 0; k < o.nch; ++k) {
+                        const uint64_t w = get_bits(src.p, pb + ks, o.width[k]);
+                        if (vals[k] != w) vh::viol(vh::cat("read.const-channel", k, ".", o.name), vh::cat(o.name, " row at bit ", bit, " of ", npix, " pixels, pixel ", i, " channel ", k, ": bits hold ", w, " const get() returns ", vals[k]));
+                        ks += o.width[k];
+                    }
+                    ++evals;
+                }
+                uint64_t sums[5];
+                std::vector<byte> before(dst.p, dst.p + dst.n);
+                o.cread_row(src.p, bit, npix, dst.p, dbit, sums);
+                for (int k = 0; k < 4; ++k) if (sums[k] != want_sum) vh::viol(vh::cat("read.const-walk.", o.name), vh::cat(o.name, " row at bit ", bit, " of ", npix, " pixels: walk ", k, " through the const iterator sums ", sums[k], " expected ", want_sum));
+                if (!sums[4]) vh::viol(vh::cat("read.const-equal.", o.name), vh::cat(o.name, " row at bit ", bit, " of ", npix, " pixels: std::equal(const row, its copy) is false"));
+                for (long i = 0; i < npix; ++i) put_bits(before.data(), dbit + i * o.bit_size, o.bit_size, get_bits(src.p, bit + i * o.bit_size, o.bit_size));
+                if (std::memcmp(before.data(), dst.p, dst.n)) vh::viol(vh::cat("stored.copy-from-const.", o.name), vh::cat(o.name, " row at bit ", bit, " of ", npix, " pixels copied from the const iterator to a row at bit ", dbit, ": destination block differs from the expected image"));
+                evals += 6;
+            }
+        }
+        vh::sample(vh::cat(o.name, " rows of 1..", vh::thorough() ? 24 : 9, " pixels at bit ", bit, " ending in the last byte of an exactly sized block, read through const_iterator / const_reference / const channel proxies"));
+        vh::evals(evals); vh::distinct(evals);
+        vh::obs("iter.tight-const");
+    }
+    // 5. a const view over w x h pixels packed without padding into an exactly sized block (rows at arbitrary bit offsets)
+    if (vh::begin_case("tight-const-view", o.name)) {
+        vh::rng r = vh::case_rng();
+        uint64_t evals = 0;
+        for (long h = 1; h <= 3; ++h)
+            for (long w = 1; w <= (vh::thorough() ? 19 : 9); ++w) {
+                const size_t bytes = (size_t)((w * h * o.bit_size + 7) / 8);
+                tight_block src(bytes), dst(bytes);
+                src.fill(r); dst.fill(r);
+                uint64_t want_sum = 0;
+                for (long i = 0; i < w * h; ++i) want_sum += get_bits(src.p, i * o.bit_size, o.bit_size);
+                std::vector<byte> expect(dst.p, dst.p + dst.n);
+                for (long i = 0; i < w * h; ++i) put_bits(expect.data(), i * o.bit_size, o.bit_size, get_bits(src.p, i * o.bit_size, o.bit_size));
+                uint64_t sums[6];
+                o.cread_view(src.p, w, h, dst.p, sums);
+                for (int k = 0; k < 5; ++k) if (sums[k] != want_sum) vh::viol(vh::cat("read.const-view.", o.name), vh::cat(o.name, " const view ", w, "x", h, ": access path ", k, " sums ", sums[k], " expected ", want_sum));
+                if (!sums[5]) vh::viol(vh::cat("read.const-view-equal.", o.name), vh::cat(o.name, " const view ", w, "x", h, ": equal_pixels(view, its copy) is false"));
+                if (std::memcmp(expect.data(), dst.p, dst.n)) vh::viol(vh::cat("stored.copy-from-const-view.", o.name), vh::cat(o.name, " const view ", w, "x", h, " copied with copy_pixels: destination block differs from the expected image"));
+                evals += 7;
+            }
+        vh::evals(evals); vh::distinct(evals);
+        vh::obs("iter.tight-const-view");
     }
 }
 
@@ -850,9 +1065,13 @@ int main(int argc, char** argv) {
     all_firsts<uint8_t, 1>(); all_firsts<uint8_t, 2>(); all_firsts<uint8_t, 3>(); all_firsts<uint8_t, 4>();
     all_firsts<uint8_t, 5>(); all_firsts<uint8_t, 6>(); all_firsts<uint8_t, 7>(); all_firsts<uint8_t, 8>();
 #elif C08_PART == 1
-    all_firsts<uint16_t, 1>(); all_firsts<uint16_t, 2>(); all_firsts<uint16_t, 3>(); all_firsts<uint16_t, 4>();
+    all_firsts<uint16_t, 1>(); all_firsts<uint16_t, 2>();
+#elif C08_PART == 15
+    all_firsts<uint16_t, 3>(); all_firsts<uint16_t, 4>();
 #elif C08_PART == 2
-    all_firsts<uint16_t, 5>(); all_firsts<uint16_t, 6>(); all_firsts<uint16_t, 7>(); all_firsts<uint16_t, 8>();
+    all_firsts<uint16_t, 5>(); all_firsts<uint16_t, 6>();
+#elif C08_PART == 16
+    all_firsts<uint16_t, 7>(); all_firsts<uint16_t, 8>();
     all_firsts<uint16_t, 12>(); all_firsts<uint16_t, 16>();
 #elif C08_PART == 3
     // 32- and 64-bit fields: first bits around every byte boundary and at the top
@@ -867,18 +1086,18 @@ int main(int argc, char** argv) {
     // wide channels (beyond the 1..16 bit widths the property enumerates; the documentation allows them)
     some_firsts<uint64_t, 24, 0, 17, 40>(); some_firsts<uint64_t, 30, 0, 20, 34>();
 #elif C08_PART == 5
-    channel_case(dynamic_ops<uint8_t, 1>()); channel_case(dynamic_ops<uint8_t, 2>()); channel_case(dynamic_ops<uint8_t, 3>()); channel_case(dynamic_ops<uint8_t, 4>());
-    channel_case(dynamic_ops<uint8_t, 5>()); channel_case(dynamic_ops<uint8_t, 6>()); channel_case(dynamic_ops<uint8_t, 7>()); channel_case(dynamic_ops<uint8_t, 8>());
-    channel_case(dynamic_ops<uint16_t, 1>()); channel_case(dynamic_ops<uint16_t, 2>()); channel_case(dynamic_ops<uint16_t, 3>()); channel_case(dynamic_ops<uint16_t, 4>());
-    channel_case(dynamic_ops<uint16_t, 5>()); channel_case(dynamic_ops<uint16_t, 6>()); channel_case(dynamic_ops<uint16_t, 7>()); channel_case(dynamic_ops<uint16_t, 8>());
-    channel_case(dynamic_ops<uint16_t, 9>()); channel_case(dynamic_ops<uint16_t, 12>()); channel_case(dynamic_ops<uint16_t, 16>());
-    channel_case(dynamic_ops<uint32_t, 1>()); channel_case(dynamic_ops<uint32_t, 3>()); channel_case(dynamic_ops<uint32_t, 4>()); channel_case(dynamic_ops<uint32_t, 5>());
-    channel_case(dynamic_ops<uint32_t, 6>()); channel_case(dynamic_ops<uint32_t, 8>()); channel_case(dynamic_ops<uint32_t, 10>()); channel_case(dynamic_ops<uint32_t, 12>());
-    channel_case(dynamic_ops<uint32_t, 16>());
-    channel_case(dynamic_ops<uint64_t, 1>()); channel_case(dynamic_ops<uint64_t, 4>()); channel_case(dynamic_ops<uint64_t, 7>()); channel_case(dynamic_ops<uint64_t, 8>());
-    channel_case(dynamic_ops<uint64_t, 12>()); channel_case(dynamic_ops<uint64_t, 16>());
+    dyn_cases<uint8_t, 1>(); dyn_cases<uint8_t, 2>(); dyn_cases<uint8_t, 3>(); dyn_cases<uint8_t, 4>();
+    dyn_cases<uint8_t, 5>(); dyn_cases<uint8_t, 6>(); dyn_cases<uint8_t, 7>(); dyn_cases<uint8_t, 8>();
+    dyn_cases<uint16_t, 1>(); dyn_cases<uint16_t, 2>(); dyn_cases<uint16_t, 3>(); dyn_cases<uint16_t, 4>();
+    dyn_cases<uint16_t, 5>(); dyn_cases<uint16_t, 6>(); dyn_cases<uint16_t, 7>(); dyn_cases<uint16_t, 8>();
+    dyn_cases<uint16_t, 9>(); dyn_cases<uint16_t, 12>(); dyn_cases<uint16_t, 16>();
+    dyn_cases<uint32_t, 1>(); dyn_cases<uint32_t, 3>(); dyn_cases<uint32_t, 4>(); dyn_cases<uint32_t, 5>();
+    dyn_cases<uint32_t, 6>(); dyn_cases<uint32_t, 8>(); dyn_cases<uint32_t, 10>(); dyn_cases<uint32_t, 12>();
+    dyn_cases<uint32_t, 16>();
+    dyn_cases<uint64_t, 1>(); dyn_cases<uint64_t, 4>(); dyn_cases<uint64_t, 7>(); dyn_cases<uint64_t, 8>();
+    dyn_cases<uint64_t, 12>(); dyn_cases<uint64_t, 16>();
     // wide channels (beyond the 1..16 bit widths the property enumerates; the documentation allows them)
-    channel_case(dynamic_ops<uint32_t, 24>()); channel_case(dynamic_ops<uint64_t, 20>()); channel_case(dynamic_ops<uint64_t, 30>()); channel_case(dynamic_ops<uint64_t, 32>());
+    dyn_cases<uint32_t, 24>(); dyn_cases<uint64_t, 20>(); dyn_cases<uint64_t, 30>(); dyn_cases<uint64_t, 32>();
 #elif C08_PART == 6
     // bit-aligned pixels with the bit field bit_aligned_image_type would choose (min_fast_uint<bit_size+7>)
     pixel_case(ba_ops<uint8_t, mp_list_c<int, 1>, gil::gray_layout_t>("gray1", {0}));
@@ -909,9 +1128,12 @@ int main(int argc, char** argv) {
     iterator_cases(make_it_ops<uint16_t, mp_list_c<int, 7>, gil::gray_layout_t>("gray7"));
     iterator_cases(make_it_ops<uint16_t, mp_list_c<int, 1, 2, 1>, gil::bgr_layout_t>("bgr121"));
     iterator_cases(make_it_ops<uint16_t, mp_list_c<int, 1, 2, 3>, gil::rgb_layout_t>("rgb123"));
+#elif C08_PART == 17
     iterator_cases(make_it_ops<uint32_t, mp_list_c<int, 4, 4, 4>, gil::rgb_layout_t>("rgb444"));
     iterator_cases(make_it_ops<uint32_t, mp_list_c<int, 5, 6, 5>, gil::rgb_layout_t>("rgb565"));
     iterator_cases(make_it_ops<uint64_t, mp_list_c<int, 8, 8, 8, 8, 8>, gil::devicen_layout_t<5>>("dev5x8"));
+    iterator_cases(make_it_ops<uint16_t, mp_list_c<int, 3, 3, 2>, gil::rgb_layout_t>("rgb332"));   // blue ends on a byte boundary
+    iterator_cases(make_it_ops<uint16_t, mp_list_c<int, 6>, gil::gray_layout_t>("gray6"));          // every 4th pixel ends on a byte boundary
 #elif C08_PART == 10
     // the library's factory types: gray 1..5 bits
     factory_bit_aligned<gil::bit_aligned_image1_type<1, gil::gray_layout_t>::type>("gray1", {0});
@@ -931,6 +1153,10 @@ int main(int argc, char** argv) {
     factory_bit_aligned<gil::bit_aligned_image4_type<5, 5, 5, 1, gil::rgba_layout_t>::type>("rgba5551", {0, 1, 2, 3});
     factory_bit_aligned<gil::bit_aligned_image2_type<3, 5, gil::devicen_layout_t<2>>::type>("dev35", {0, 1});
     factory_bit_aligned<gil::bit_aligned_image5_type<1, 2, 3, 2, 1, gil::devicen_layout_t<5>>::type>("dev12321", {0, 1, 2, 3, 4});
+#elif C08_PART == 14
+    factory_bit_aligned<gil::bit_aligned_image3_type<3, 3, 2, gil::rgb_layout_t>::type>("rgb332", {0, 1, 2});
+    factory_bit_aligned<gil::bit_aligned_image1_type<8, gil::gray_layout_t>::type>("gray8", {0});
+    factory_bit_aligned<gil::bit_aligned_image4_type<8, 8, 8, 8, gil::rgba_layout_t>::type>("rgba8888", {0, 1, 2, 3});
 #else
     // packed_image{1..4}_type factories
     factory_packed<gil::packed_image1_type<uint8_t, 3, gil::gray_layout_t>::type, uint8_t, mp_list_c<unsigned, 3>, gil::gray_layout_t>("gray3", {0});
